@@ -1,0 +1,33 @@
+//! Verification hooks (only compiled with `--cfg rosu_pp_verif`).
+
+use crate::{model::beatmap::Beatmap, Difficulty};
+
+use super::{
+    attributes::ObjectCountBuilder, convert::convert_objects, difficulty::CatchDifficultySetup,
+    object::banana_shower::BananaShower,
+};
+
+/// The sequence of recorded palpable objects in record order as
+/// `(is_fruit, tiny droplets recorded since the previous palpable object)`
+/// followed by the amount of palpable objects that were converted.
+///
+/// `map` must already be a catch map.
+pub fn record_events(difficulty: &Difficulty, map: &Beatmap) -> (Vec<(bool, u32)>, usize) {
+    let cs = CatchDifficultySetup::new(difficulty, map).verif_cs();
+    let mut count = ObjectCountBuilder::new_gradual();
+
+    let palpable = convert_objects(
+        map,
+        &mut count,
+        difficulty.get_mods().reflection(),
+        difficulty.get_hardrock_offsets(),
+        cs,
+    );
+
+    (count.verif_into_events(), palpable.len())
+}
+
+/// Amount of bananas of a banana shower.
+pub fn n_bananas(start_time: f64, end_time: f64) -> usize {
+    BananaShower::new(start_time, end_time).n_bananas
+}
